@@ -183,6 +183,77 @@ def decSimpleQ (db : Db) (j : Json) : Except String SimpleQ := do
   | .ok q => pure q
   | .error e => throw s!"the model cannot build the quantity: {e.name}"
 
+/-- an ordered operand: `{cls, q: {k: simple, cat, unit} | {k: empty}, value | number, frac}` -/
+def decOperand (db : Db) (jo : Json) : Except String Operand := do
+  let jq ← getObj jo "q"
+  let q ← match (← getStr jq "k") with
+    | "simple" => do pure (OrdQ.simple (← decSimpleQ db jq))
+    | "empty" => pure OrdQ.empty
+    | k => throw s!"unknown quantity kind {k}"
+  match (← getStr jo "cls") with
+  | "scalar" => pure (Operand.sc (← getRat jo "value") q)
+  | "fscalar" => pure (Operand.fsc (← decFVal jo) q)
+  | c => throw s!"unknown cls {c}"
+
+def decOp (n : Nat) : Except String Op :=
+  match n with
+  | 0 => .ok .lt
+  | 1 => .ok .le
+  | 2 => .ok .gt
+  | 3 => .ok .ge
+  | _ => .error "unknown order operator"
+
+/-- `[0,i]` float, `[1,i]` str/repr, `[2,i,"unit"]` GetValue(unit), `[3,op,i,j]` order, `[4,i,j]` ==/!=, `[5,i]` hash,
+`[6,i,j]` arithmetic, `[7,i]` copy -/
+def decOStirOp (j : Json) : Except String OStirOp :=
+  match j with
+  | .arr #[k, i] => do
+    match (← natOfJson k) with
+    | 0 => pure (.float (← natOfJson i))
+    | 1 => pure (.show (← natOfJson i))
+    | 5 => pure (.hash (← natOfJson i))
+    | 7 => pure (.copy (← natOfJson i))
+    | _ => throw "unknown unary operation of an order history"
+  | .arr #[k, i, x] => do
+    match (← natOfJson k) with
+    | 2 => pure (.getValue (← natOfJson i) (← symOfJson x))
+    | 4 => pure (.eq (← natOfJson i) (← natOfJson x))
+    | 6 => pure (.arith (← natOfJson i) (← natOfJson x))
+    | _ => throw "unknown binary operation of an order history"
+  | .arr #[k, o, i, i2] => do
+    match (← natOfJson k) with
+    | 3 => pure (.order (← decOp (← natOfJson o)) (← natOfJson i) (← natOfJson i2))
+    | _ => throw "unknown operation of an order history"
+  | _ => .error "operation of an order history expected"
+
+/-- magnitude of the operand's own parts -/
+def ownMag : Operand → Rat
+  | .sc v _ => absR v
+  | .fsc v _ => absR v.number + absR v.frac
+
+/-- magnitude of the intermediate quantities of `Operand.valueIn` -/
+def magOperand (db : Db) (o : Operand) (toU : Sym) : Rat :=
+  match o with
+  | .sc v (.simple q) => magConv db q v toU
+  | .sc v .empty => absR v
+  | .fsc v (.simple q) =>
+    absR v.number + absR v.frac + magConv db q v.number toU
+      + (magConv db q (v.frac.num : Rat) toU + magConv db q 0 toU) / (v.frac.den : Rat)
+  | .fsc _ .empty => 0
+
+/-- the two compared amounts are within `tol * M` of each other: the float verdict is not the model's to predict -/
+def nearPair (db : Db) (small tol : Rat) (s : OSession) (i j : Nat) : Bool :=
+  match s.pool[i]?, s.pool[j]? with
+  | some a, some b =>
+    -- identically built operands (twins, copies): the same float operations on both sides, the tie is exact
+    if a == b then false else
+    match b.valueIn db small a.q.unit with
+    | .ok v2 => decide (absR (a.own - v2) ≤ tol * (ownMag a + absR v2 + magOperand db b a.q.unit))
+    | .error _ => false
+  | _, _ => false
+
+def boolC (b : Bool) : Char := if b then '1' else '0'
+
 def ordJ (f : Op → Except ErrKind Bool) : Json :=
   match f .lt, f .le, f .gt, f .ge with
   | .ok a, .ok b, .ok c, .ok d => Json.mkObj [("lt", .bool a), ("le", .bool b), ("gt", .bool c), ("ge", .bool d)]
@@ -255,18 +326,8 @@ def handle (j : Json) : Except String Json := do
     -- any two operands: Scalar/FractionScalar on a simple (table, `<unknown>` included) or the empty quantity
     let db ← dbOf (← getStr j "db")
     let small ← getRat j "small"
-    let dec (jo : Json) : Except String Operand := do
-      let jq ← getObj jo "q"
-      let q ← match (← getStr jq "k") with
-        | "simple" => do pure (OrdQ.simple (← decSimpleQ db jq))
-        | "empty" => pure OrdQ.empty
-        | k => throw s!"unknown quantity kind {k}"
-      match (← getStr jo "cls") with
-      | "scalar" => pure (Operand.sc (← getRat jo "value") q)
-      | "fscalar" => pure (Operand.fsc (← decFVal jo) q)
-      | c => throw s!"unknown cls {c}"
-    let a ← dec (← getObj j "a")
-    let b ← dec (← getObj j "b")
+    let a ← decOperand db (← getObj j "a")
+    let b ← decOperand db (← getObj j "b")
     pure (Json.mkObj [("ok", Json.mkObj [("ord", ordJ (fun o => a.order db small o b))])])
   | "stir" =>
     -- a pool of objects with identities, a history of operations, then comparisons of pooled objects
@@ -286,6 +347,28 @@ def handle (j : Json) : Except String Json := do
       (s, ⟨"", "", 0⟩)
     pure (Json.mkObj [("ok", Json.mkObj [("wf", .bool (poolWF pool)), ("memo", .num s.memo.length),
       ("pool_kept", .bool (s.pool == pool)), ("codes", .str rle.flush)])])
+  | "ostir" =>
+    -- a pool of ordered operands, a history (reads, shows, conversions, comparisons, copies), then the four order
+    -- operators on pairs of the grown pool; the comparisons of the history are answered too
+    let db ← dbOf (← getStr j "db")
+    let small ← getRat j "small"
+    let tol ← getRat j "tol"
+    let pool ← (← getArr j "pool").toList.mapM (decOperand db)
+    let ops ← (← getArr j "script").toList.mapM decOStirOp
+    let queries ← (← getArr j "queries").toList.mapM decQuery
+    let s0 : OSession := ⟨pool⟩
+    let (_, hist) := ops.foldl (fun (acc : OSession × String) op =>
+      let (s, out) := acc
+      let out := match op with
+        | .order o i i2 => out ++ String.ofList [resC (s.order db small o i i2), boolC (nearPair db small tol s i i2)]
+        | _ => out
+      (s.step op, out)) (s0, "")
+    let s := s0.run ops
+    let rle := queries.foldl (fun (out : Rle) q =>
+      out.push (String.ofList [resC (s.order db small .lt q.1 q.2), resC (s.order db small .le q.1 q.2),
+        resC (s.order db small .gt q.1 q.2), resC (s.order db small .ge q.1 q.2), boolC (nearPair db small tol s q.1 q.2)]))
+      ⟨"", "", 0⟩
+    pure (Json.mkObj [("ok", Json.mkObj [("n", .num s.pool.length), ("hist", .str hist), ("codes", .str rle.flush)])])
   | "basehash" =>
     -- `AbstractValueWithQuantityObject.__hash__(o)` called explicitly
     let o ← decObj (← getObj j "a")
